@@ -2133,132 +2133,107 @@ impl<'store> FindTextSelectionsIter<'store> {
     /// The reference text selection is always in the subject position for the associated [`TextSelectionOperator`] (`operator()`)
     /// The boolean returns the direction of iteration (true = forward, false = backwards)
     fn init_textseliters(&mut self) {
+        // exclusive upper bound that still covers (zero-width) text selections at the very end of the text
+        let textend = self.resource.textlen() + 1;
+        let negate = match self.operator {
+            TextSelectionOperator::Equals { negate, .. }
+            | TextSelectionOperator::Overlaps { negate, .. }
+            | TextSelectionOperator::Embeds { negate, .. }
+            | TextSelectionOperator::Embedded { negate, .. }
+            | TextSelectionOperator::Before { negate, .. }
+            | TextSelectionOperator::After { negate, .. }
+            | TextSelectionOperator::Precedes { negate, .. }
+            | TextSelectionOperator::Succeeds { negate, .. }
+            | TextSelectionOperator::SameBegin { negate, .. }
+            | TextSelectionOperator::SameEnd { negate, .. }
+            | TextSelectionOperator::InSet { negate, .. }
+            | TextSelectionOperator::SameRange { negate, .. } => negate,
+        };
+        if negate || self.refset.len() != 1 {
+            // a restricted range is only valid for a non-negated operator and a single reference;
+            // a single full scan also guarantees textual order without duplicates
+            self.textseliters
+                .push((self.resource.range(0, textend), true));
+            return;
+        }
+        let reftextselection = self.refset.iter().next().unwrap();
+        let (refbegin, refend) = (reftextselection.begin(), reftextselection.end());
         match self.operator {
             TextSelectionOperator::Embeds { .. } => {
-                for reftextselection in self.refset.iter() {
-                    self.textseliters.push((
-                        self.resource
-                            .range(reftextselection.begin(), reftextselection.end()),
-                        true,
-                    ));
-                }
+                //found items begin inside the reference (or at its very end when zero-width)
+                self.textseliters
+                    .push((self.resource.range(refbegin, refend + 1), true));
             }
             TextSelectionOperator::SameBegin { .. } => {
-                self.textseliters.push((
-                    self.resource.range(
-                        self.refset.begin().unwrap(),
-                        self.refset.begin().unwrap() + 1,
-                    ),
-                    true,
-                ));
+                self.textseliters
+                    .push((self.resource.range(refbegin, refbegin + 1), true));
             }
             TextSelectionOperator::SameEnd { .. } => {
                 self.textseliters.push((
-                    self.resource
-                        .range(self.refset.end().unwrap(), self.refset.end().unwrap() + 1),
+                    self.resource.range(refend, refend + 1),
                     false, //search backwards! end must be in range above
                 ));
             }
-            TextSelectionOperator::After { limit, .. } => {
-                //self comes after found items, so find items before self:
-                let begin = if let Some(limit) = limit {
-                    if limit >= self.refset.begin().unwrap() {
-                        0
-                    } else {
-                        self.refset.begin().unwrap() - limit
-                    }
-                } else {
-                    0
-                };
-                self.textseliters.push((
-                    self.resource.range(begin, self.refset.begin().unwrap()),
-                    true,
-                ));
+            TextSelectionOperator::After { .. } => {
+                //reference comes after found items, found items end (and therefore begin) at or before the reference begins
+                self.textseliters
+                    .push((self.resource.range(0, refbegin + 1), true));
             }
             TextSelectionOperator::Succeeds {
                 allow_whitespace, ..
             } => {
-                self.textseliters.push((
-                    self.resource.range(
-                        self.refset.begin().unwrap(),
-                        self.refset.begin().unwrap()
-                            + if allow_whitespace {
-                                WHITESPACE_LIMIT + 1
-                            } else {
-                                1
-                            },
-                    ),
-                    false, //search backwards!! end must be in range above
-                ));
+                if allow_whitespace {
+                    //found items end somewhere before the reference begins
+                    self.textseliters
+                        .push((self.resource.range(0, refbegin + 1), true));
+                } else {
+                    self.textseliters.push((
+                        self.resource.range(refbegin, refbegin + 1),
+                        false, //search backwards!! end must be in range above
+                    ));
+                }
             }
             TextSelectionOperator::Before { limit, .. } => {
-                //self comes before found items, so find items after self:
+                //reference comes before found items, so find items that begin after the reference ends:
                 let end = if let Some(limit) = limit {
-                    self.refset.end().unwrap() + limit
+                    std::cmp::min(refend + limit + 1, textend)
                 } else {
-                    self.resource.textlen()
+                    textend
                 };
-                self.textseliters
-                    .push((self.resource.range(self.refset.end().unwrap(), end), true));
+                self.textseliters.push((
+                    self.resource.range(refend, std::cmp::max(refend, end)),
+                    true,
+                ));
             }
             TextSelectionOperator::Precedes {
                 allow_whitespace, ..
             } => {
-                self.textseliters.push((
-                    self.resource.range(
-                        self.refset.end().unwrap(),
-                        self.refset.end().unwrap()
-                            + if allow_whitespace {
-                                WHITESPACE_LIMIT + 1
-                            } else {
-                                1
-                            },
-                    ),
-                    true,
-                ));
+                let end = if allow_whitespace {
+                    std::cmp::max(refend + 1, textend)
+                } else {
+                    refend + 1
+                };
+                self.textseliters
+                    .push((self.resource.range(refend, end), true));
             }
-            TextSelectionOperator::Embedded {
-                limit: Some(limit), ..
-            } => {
-                let halfway = self.resource.textlen() / 2;
-                for reftextselection in self.refset.iter() {
-                    if reftextselection.begin() <= halfway {
-                        let begin = if reftextselection.begin() > limit {
-                            reftextselection.begin() - limit
-                        } else {
-                            0
-                        };
-                        self.textseliters
-                            .push((self.resource.range(begin, reftextselection.end()), true));
-                    } else {
-                        let mut end = reftextselection.end() + limit;
-                        if end > self.resource.textlen() {
-                            end = self.resource.textlen();
-                        }
-                        self.textseliters.push((
-                            self.resource.range(reftextselection.end(), end),
-                            false, //search backwards!!
-                        ));
-                    }
-                }
+            TextSelectionOperator::Embedded { limit, .. } => {
+                //found items begin at or before the reference begins
+                let begin = if let Some(limit) = limit {
+                    refbegin.saturating_sub(limit)
+                } else {
+                    0
+                };
+                self.textseliters
+                    .push((self.resource.range(begin, refbegin + 1), true));
             }
-            TextSelectionOperator::Overlaps { .. } | TextSelectionOperator::Embedded { .. } => {
-                let halfway = self.resource.textlen() / 2;
-                for reftextselection in self.refset.iter() {
-                    if reftextselection.begin() <= halfway {
-                        self.textseliters
-                            .push((self.resource.range(0, reftextselection.end()), true));
-                    } else {
-                        self.textseliters.push((
-                            self.resource
-                                .range(reftextselection.end(), self.resource.textlen()),
-                            false, //search backwards!!
-                        ));
-                    }
-                }
+            TextSelectionOperator::Overlaps { .. } => {
+                //found items begin at or before the reference ends
+                self.textseliters
+                    .push((self.resource.range(0, refend + 1), true));
             }
             _ => {
-                self.textseliters.push((self.resource.iter(), true)); //return the maximum slice
+                self.textseliters
+                    .push((self.resource.range(0, textend), true)); //return the maximum slice
             }
         }
     }
@@ -2289,6 +2264,7 @@ impl<'store> FindTextSelectionsIter<'store> {
                     }
                 } else {
                     //all in refset must be found, or none are returned at all
+                    self.buffer.clear();
                     self.drain_buffer = true;
                     return None;
                 }
